@@ -1214,6 +1214,8 @@ impl Session {
                 let session_id = session.id();
                 let mut ticker = time::interval(heartbeat_state.interval);
                 ticker.set_missed_tick_behavior(MissedTickBehavior::Delay);
+                // When the most recent keep-alive request was sent (None before the first one)
+                let mut last_probe: Option<Instant> = None;
 
                 loop {
                     ticker.tick().await;
@@ -1226,12 +1228,18 @@ impl Session {
                         break;
                     }
 
-                    let last_seen = {
+                    let (last_seen, unanswered) = {
                         let guard = heartbeat_state.last_received.lock().await;
-                        Instant::now().saturating_duration_since(*guard)
+                        let unanswered = match last_probe {
+                            Some(sent) => *guard < sent,
+                            None => false,
+                        };
+                        (Instant::now().saturating_duration_since(*guard), unanswered)
                     };
 
-                    if last_seen > heartbeat_state.timeout {
+                    // The peer is dead only while a request is still unanswered: a tick that comes late must not
+                    // count against a peer that has answered everything it was asked
+                    if unanswered && last_seen > heartbeat_state.timeout {
                         tracing::warn!(
                             session_id = session_id,
                             elapsed_ms = last_seen.as_millis() as u64,
@@ -1247,6 +1255,7 @@ impl Session {
                         break;
                     }
 
+                    let sent_at = Instant::now();
                     if let Err(e) = session
                         .write_control_frame(Frame::control(Command::HeartRequest, 0))
                         .await
@@ -1266,6 +1275,7 @@ impl Session {
                         break;
                     }
 
+                    last_probe = Some(sent_at);
                     tracing::trace!(
                         session_id = session_id,
                         "[Session] Heartbeat request sent successfully"
